@@ -6,25 +6,27 @@ From KV Require Import Base.Prelude Base.Exn Base.Bytes Model.Data Model.Xml.
 Notation attr := (text * text * text)%type (only parsing).
 
 Inductive tree :=
-| Leaf (name : text) (attrs : list attr) (lpad content rpad : text) (after : text)   (* <n a="v"> lpad content rpad </n> after *)
-| Empty (name : text) (attrs : list attr) (after : text)                        (* <n a="v"/> after  (needs an attribute) *)
-| Node (name : text) (attrs : list attr) (pre : text) (children : list tree) (after : text).   (* <n a="v"> pre c1 c2 .. </n> after *)
+| Leaf (name : text) (attrs : list attr) (tail : text) (lpad content rpad : text) (after : text)   (* <n a="v" tail> lpad content rpad </n> after *)
+| Empty (name : text) (attrs : list attr) (tail : text) (after : text)          (* <n a="v" tail/> after  (needs an attribute) *)
+| Node (name : text) (attrs : list attr) (tail : text) (pre : text) (children : list tree) (after : text).   (* <n a="v" tail> pre c1 c2 .. </n> after *)
 
-Definition tname (t : tree) : text := match t with Leaf n _ _ _ _ _ | Empty n _ _ | Node n _ _ _ _ => n end.
-Definition tafter (t : tree) : text := match t with Leaf _ _ _ _ _ a | Empty _ _ a | Node _ _ _ _ a => a end.
-Definition tattrs (t : tree) : list attr := match t with Leaf _ a _ _ _ _ | Empty _ a _ | Node _ a _ _ _ => a end.
+Definition tname (t : tree) : text := match t with Leaf n _ _ _ _ _ _ | Empty n _ _ _ | Node n _ _ _ _ _ => n end.
+Definition tafter (t : tree) : text := match t with Leaf _ _ _ _ _ _ a | Empty _ _ _ a | Node _ _ _ _ _ a => a end.
+Definition tattrs (t : tree) : list attr := match t with Leaf _ a _ _ _ _ _ | Empty _ a _ _ | Node _ a _ _ _ _ => a end.
 
 Definition ser_attr (a : attr) : text := let '(sep, k, v) := a in sep ++ k ++ [EQ; QUOTE] ++ v ++ [QUOTE].
 Definition ser_attrs (l : list attr) : text := flat_map ser_attr l.
-Definition open_tag (n : text) (a : list attr) : text := [LT] ++ n ++ ser_attrs a ++ [GT].
+(* tl: blanks between the last attribute and the closing bracket *)
+Definition open_tag (n : text) (a : list attr) (tl : text) : text := [LT] ++ n ++ (ser_attrs a ++ tl) ++ [GT].
+Definition empty_tag (n : text) (a : list attr) (tl : text) : text := [LT] ++ n ++ (ser_attrs a ++ tl) ++ [SLASH; GT].
 Definition close_tag (n : text) : text := [LT; SLASH] ++ n ++ [GT].
 
 (* the element itself, without the blanks that follow it *)
 Fixpoint elem (t : tree) : text :=
   match t with
-  | Leaf n a lp c rp _ => open_tag n a ++ (lp ++ c ++ rp) ++ close_tag n
-  | Empty n a _ => [LT] ++ n ++ ser_attrs a ++ [SLASH; GT]
-  | Node n a pre cs _ => open_tag n a ++ pre ++ flat_map (fun c => elem c ++ tafter c) cs ++ close_tag n
+  | Leaf n a tl lp c rp _ => open_tag n a tl ++ (lp ++ c ++ rp) ++ close_tag n
+  | Empty n a tl _ => empty_tag n a tl
+  | Node n a tl pre cs _ => open_tag n a tl ++ pre ++ flat_map (fun c => elem c ++ tafter c) cs ++ close_tag n
   end.
 Definition ser (t : tree) : text := elem t ++ tafter t.
 Definition sers (cs : list tree) : text := flat_map ser cs.
@@ -35,15 +37,15 @@ Definition wrap (a : list attr) (v : val) : val := match a with [] => v | _ => V
 Definition collect (kvs : list (text * val)) : list (text * val) := fold_left (fun d kv => store (fst kv) (snd kv) d) kvs [].
 Fixpoint val_of (t : tree) : val :=
   match t with
-  | Leaf _ a _ c _ _ => wrap a (VStr c)
-  | Empty _ a _ => wrap a (VStr [])
-  | Node _ a _ cs _ => wrap a (VNode (collect (map (fun c => (tname c, val_of c)) cs)))
+  | Leaf _ a _ _ c _ _ => wrap a (VStr c)
+  | Empty _ a _ _ => wrap a (VStr [])
+  | Node _ a _ _ cs _ => wrap a (VNode (collect (map (fun c => (tname c, val_of c)) cs)))
   end.
 Definition doc_of (cs : list tree) : list (text * val) := collect (map (fun c => (tname c, val_of c)) cs).
 
 Fixpoint height (t : tree) : nat :=
   match t with
-  | Node _ _ _ cs _ => S (fold_right (fun c m => Nat.max (height c) m) O cs)
+  | Node _ _ _ _ cs _ => S (fold_right (fun c m => Nat.max (height c) m) O cs)
   | _ => O
   end.
 
@@ -67,16 +69,18 @@ Definition content_ok (c : text) : bool := no_lt c && edge_ok c && edge_ok (rev 
 
 Fixpoint names (t : tree) : list text :=
   match t with
-  | Node n _ _ cs _ => n :: flat_map names cs
-  | Leaf n _ _ _ _ _ | Empty n _ _ => [n]
+  | Node n _ _ _ cs _ => n :: flat_map names cs
+  | Leaf n _ _ _ _ _ _ | Empty n _ _ _ => [n]
   end.
 Definition is_nil {A} (l : list A) : bool := match l with [] => true | _ => false end.
 
+Definition tail_ok (a : list attr) (tl : text) : bool := forallb blank tl && (negb (is_nil a) || is_nil tl).
+
 Fixpoint wf (t : tree) : bool :=
   match t with
-  | Leaf n a lp c rp aft => name_ok n && attrs_ok a && content_ok c && all_space lp && all_space rp && all_space aft
-  | Empty n a aft => name_ok n && attrs_ok a && negb (is_nil a) && all_space aft
-  | Node n a pre cs aft =>
-      name_ok n && attrs_ok a && all_space pre && all_space aft && negb (is_nil cs) && forallb wf cs &&
+  | Leaf n a tl lp c rp aft => name_ok n && attrs_ok a && tail_ok a tl && content_ok c && all_space lp && all_space rp && all_space aft
+  | Empty n a tl aft => name_ok n && attrs_ok a && tail_ok a tl && negb (is_nil a) && all_space aft
+  | Node n a tl pre cs aft =>
+      name_ok n && attrs_ok a && tail_ok a tl && all_space pre && all_space aft && negb (is_nil cs) && forallb wf cs &&
       negb (existsb (text_eqb n) (flat_map names cs))
   end.
